@@ -400,6 +400,8 @@ def wl_live(ctx, rng):
     observe_case(ctx, spec, 'transmission')
     ctx.feature(victim=victim, start_zero=start_zero)
     model, contribs, ops, cias = realise(spec)
+    spec0 = spec
+    writes = []
     snap = base.run_model(ctx, model)
     if snap is None:
         return
@@ -412,8 +414,19 @@ def wl_live(ctx, rng):
             v = 0.0
         steps.append(v)
         model[victim] = v
+        writes.append((victim, v))
         spec = dict(spec, gases=[dict(g, mix=v) if g['mol'] == victim else g for g in spec['gases']])
-        if rng.random() < 0.3:
+        if rng.random() < 0.5:
+            # the temperature is written as well (a retrieval moves both); cross-sections have to follow it
+            tn = [n for n, t in model.fittingParameters.items()
+                  if (n == 'T' or n in ('T_irr', 'T_surface', 'T_top') or n.startswith('T_point')) and isinstance(t[2](), float)]
+            if tn:
+                n_ = str(tn[int(rng.integers(0, len(tn)))])
+                tv = float(np.clip(float(model[n_]) * rng.uniform(0.7, 1.3), 120.0, 3200.0))
+                model[n_] = tv
+                writes.append((n_, tv))
+                ctx.observe('live:temperature-written')
+        if rng.random() < 0.45:
             site = faults.drive_into(ctx, rng, model.model)      # a rejected evaluation between write and evaluation
             if site == 'rejected':
                 return
@@ -427,8 +440,14 @@ def wl_live(ctx, rng):
         base.oracle(ctx, live, spec)
         live_rec = [(type(c).__name__, np.array(_rec['sigma'][id(c)][0]), [(n, a.copy()) for n, a in _rec['sigma'][id(c)][1]])
                     for c in contribs if id(c) in _rec['sigma']]
-        m2, c2, ops2, cias2 = realise(spec)
-        fresh = base.run_model(ctx, m2)
+        # the twin is built on the SAME cache contents (no reset: the live model must keep seeing the opacity objects
+        # it has been using, as in a real process)
+        m2 = world.build_model(spec0, 'transmission', new_path_method=spec0['new_method'])
+        c2 = world.add_contributions(m2, spec0)
+        m2.build()
+        for n_, v_ in writes:               # the fresh twin gets the same writes before its first evaluation
+            m2[n_] = v_
+        fresh = base.run_model(ctx, m2, build=False)
         if fresh is None:
             return
         wit = dict(victim=victim, written=list(steps), round=rnd)
